@@ -71,7 +71,7 @@ def _lcp(keys):
 def build(mapping: dict, n: int, chooser=None, aug=None):
     """canonical (chooser None) or chosen-label-kind encoding.  mapping: {int: value}.
     chooser(path:str, label:str, m:int) -> kind.
-    aug: None or (leaf_extra(value)->bits, fork_extra(left_extra_bits, right_extra_bits)->bits): builds HashmapAug
+    aug: None or (leaf_extra(value)->bits | (bits, refs), fork_extra(left_extra, right_extra)->bits | (bits, refs)): builds HashmapAug
     returns RCell (the root edge cell)"""
     if not mapping:
         raise RefDictError('empty map has no cell')
@@ -91,7 +91,8 @@ def _edge(items, m, path, chooser, aug):
         (vb, vr), = rest.values()
         if aug:
             extra = aug[0]((vb, vr))
-            bits, refs = lb + extra + vb, vr
+            xb, xr = extra if isinstance(extra, tuple) else (extra, ())      # an extra may own references (they precede the value's)
+            bits, refs = lb + xb + vb, tuple(xr) + tuple(vr)
         else:
             extra = None
             bits, refs = lb + vb, vr
@@ -102,7 +103,8 @@ def _edge(items, m, path, chooser, aug):
         rc, re = _edge(right, m2 - 1, path + label + '1', chooser, aug)
         if aug:
             extra = aug[1](le, re)
-            bits, refs = lb + extra, (lc, rc)
+            xb, xr = extra if isinstance(extra, tuple) else (extra, ())      # ahmn_fork: left, right, then the extra's references
+            bits, refs = lb + xb, (lc, rc) + tuple(xr)
         else:
             extra = None
             bits, refs = lb, (lc, rc)
@@ -172,12 +174,14 @@ def read_label(bits: str, pos: int, m: int):
     return v * n, q + 1 + k, 'same'
 
 
-def parse(cell: RCell, n: int, aug_extra_len=None, kinds=None):
+def parse(cell: RCell, n: int, aug_extra_len=None, kinds=None, aug_extra_refs=0):
     """plain (aug_extra_len None) or augmented parse.  Pruned-branch subtrees are skipped.
     -> (leaves {int: (bits, refs)}, extras list in post-order [leaf extras / fork extras]) ; kinds: optional
-    list collecting (path, kind)"""
+    list collecting (path, kind).  aug_extra_refs = k: every extra also owns k references (ahmn_leaf: extra's references,
+    then the value's; ahmn_fork: left, right, then the extra's) and is reported as (bits, refs)"""
     leaves = {}
     extras = []
+    xr = aug_extra_refs if aug_extra_len is not None else 0
 
     def rec(c, m, prefix):
         if c.special:
@@ -191,18 +195,20 @@ def parse(cell: RCell, n: int, aug_extra_len=None, kinds=None):
         m2 = m - len(label)
         if m2 == 0:
             if aug_extra_len is not None:
-                extras.append(c.bits[pos:pos + aug_extra_len])
+                if len(c.refs) < xr:
+                    raise RefDictError('leaf extra references missing')
+                extras.append((c.bits[pos:pos + aug_extra_len], c.refs[:xr]) if xr else c.bits[pos:pos + aug_extra_len])
                 pos += aug_extra_len
-            leaves[int(prefix2, 2) if prefix2 else 0] = (c.bits[pos:], c.refs)
+            leaves[int(prefix2, 2) if prefix2 else 0] = (c.bits[pos:], c.refs[xr:])
         else:
-            if len(c.refs) != 2:
+            if len(c.refs) != 2 + xr:
                 raise RefDictError('fork without two references')
             rec(c.refs[0], m2 - 1, prefix2 + '0')
             rec(c.refs[1], m2 - 1, prefix2 + '1')
             if aug_extra_len is not None:
                 if len(c.bits) - pos != aug_extra_len:
                     raise RefDictError('fork extra length')
-                extras.append(c.bits[pos:])
+                extras.append((c.bits[pos:], c.refs[2:]) if xr else c.bits[pos:])
             elif pos != len(c.bits):
                 raise RefDictError('fork with trailing data')
     rec(cell, n, '')
@@ -216,7 +222,7 @@ def nodes(cell: RCell):
     def rec(c, path):
         out.append((path, c))
         if not c.special:
-            for i, r in enumerate(c.refs[:2] if len(c.refs) == 2 else ()):
+            for i, r in enumerate(c.refs[:2] if len(c.refs) >= 2 else ()):
                 rec(r, path + (i,))
     rec(cell, ())
     return out
